@@ -55,7 +55,8 @@ THEOREMS = {
     "C13": _gt("init_values", "setup_eq", "init_sets_all"),
     "C14": _gt("no_mutable_globals", "externals_mt_safe") + [("Eav.Props.C14", "Eav.Props.C14.sched_indep"), ("Eav.Props.C14", "Eav.Props.C14.shared_is_empty")],
     "C15": _gt("errEnum_eq", "errors_tags", "errors_runtime", "errors_nonempty", "errors_distinct", "setup_eq"),
-    "C16": _gt("errEnum_eq", "tldTypeEnum_eq"),
+    "C16": _gt("errEnum_eq", "tldTypeEnum_eq") + [("Eav.Props.C16", "Eav.Props.C16." + n) for n in
+            ("checkIp_flags", "isTld_range", "checkTld_range", "rc_shape", "no_abort", "flags", "extra_strings")],
     "C17": _gt("buildOpts_eq", "specials_eq"),
     "C18": _gt("setup_eq", "init_values"),
     "C19": _gt("errEnum_eq"),
